@@ -149,6 +149,7 @@ class Case:
     model: Any = None
     layout: Any = None
     model_name: str = "M"
+    nm_later: Any = None             # a second, general name_mapping placed LATER in the recipe (the earlier one overrides it per parameter)
     twin: Any = None                # hostile cases: the same program with harmless names and keys (structure reference)
 
     def build(self):
@@ -167,8 +168,21 @@ class Case:
             self.model.__name__ = self.model.__qualname__ = self.model_name
         else:
             self.model = make_dataclass_model(self.fields, name=self.model_name)
-        self.layout = layout(self.fields, **self.nm)
+        self.layout = layout(self.fields, **self.merged_nm())
         return self
+
+    def merged_nm(self):
+        """documented: parameters given to an EARLIER name_mapping override the later provider's; `map` entries of the earlier one are
+        consulted first"""
+        if self.nm_later is None:
+            return self.nm
+        out = dict(self.nm_later)
+        for k, v in self.nm.items():
+            if k == "map" and "map" in out:
+                out["map"] = {**out["map"], **v}
+            else:
+                out[k] = v
+        return out
 
     def recipe(self):
         from adaptix import ExtraForbid, ExtraKwargs, ExtraSkip, NameStyle, dumper, loader, name_mapping
@@ -177,8 +191,15 @@ class Case:
             t = opaque_type(f.name)
             provs.append(loader(t, _PassThrough(f.name)))
             provs.append(dumper(t, _PassThrough(f.name)))
+        provs.append(name_mapping(self.model, **self._nm_kwargs(self.nm)))
+        if self.nm_later is not None:
+            later = {k: v for k, v in self.nm_later.items() if k != "extra_in"}
+            provs.append(name_mapping(**self._nm_kwargs(later, extra=False)))
+        return provs
+
+    def _nm_kwargs(self, nm, extra=True):
+        from adaptix import ExtraForbid, ExtraKwargs, ExtraSkip, NameStyle
         kw = {}
-        nm = self.nm
         if nm.get("map") is not None:
             kw["map"] = nm["map"]
         if nm.get("map_func") is not None:
@@ -189,6 +210,8 @@ class Case:
             kw["as_list"] = True
         if "trim" in nm:
             kw["trim_trailing_underscore"] = nm["trim"]
+        if "style" in nm and nm["style"] is None:
+            kw["name_style"] = None           # explicitly: keep the names as they are
         if nm.get("style") is not None:
             kw["name_style"] = {"camelCase": NameStyle.CAMEL, "UPPER_SNAKE": NameStyle.UPPER_SNAKE, "PascalCase": NameStyle.PASCAL,
                                 "lower-kebab": NameStyle.LOWER_KEBAB, "UPPER": NameStyle.UPPER, "lower": NameStyle.LOWER,
@@ -197,9 +220,9 @@ class Case:
             kw["skip"] = list(nm["skip"])
         if nm.get("only") is not None:
             kw["only"] = list(nm["only"])
-        kw["extra_in"] = {"skip": ExtraSkip(), "forbid": ExtraForbid(), "kwargs": ExtraKwargs()}[nm.get("extra_in", "skip")]
-        provs.append(name_mapping(self.model, **kw))
-        return provs
+        if extra:
+            kw["extra_in"] = {"skip": ExtraSkip(), "forbid": ExtraForbid(), "kwargs": ExtraKwargs()}[nm.get("extra_in", "skip")]
+        return kw
 
 
 class _PassThrough:
@@ -409,6 +432,26 @@ def loader_family(tier="quick", group="base"):
         if nname in ("nested", "list-nested", "rename", "nested-forbid", "siblings") and not all(k in [f.name for f in fields] for k in nm["map"]):
             continue
         cases.append(Case(f"{mname}/{nname}/{dt.name}/{'strict' if strict else 'lax'}", fields, nm, dt, strict))
+    # chaining (partial overriding): "the result is computed by merging all parameters of matched name_mapping; the first provider
+    # overrides parameters of next providers" — an explicit name_style=None of the earlier provider is a parameter too
+    chains = {
+        "style-none-over-camel": ({"style": None}, {"style": "camelCase"}),
+        "style-over-none": ({"style": "UPPER_SNAKE"}, {"style": None}),
+        "trim-off-over-style": ({"trim": False}, {"style": "camelCase"}),
+        "map-over-map": ({"map": {"a": "first"}}, {"map": {"a": "second", "b_": "later_b", "b": "later_b"}, "style": "UPPER_SNAKE"}),
+        "skip-plus-style": ({"skip": ["b", "b_"]}, {"style": "PascalCase", "trim": False}),
+    }
+    chain_models = {"snake": [F("user_name"), F("zip_code_", O, ("value", None))], "req-opt": models["req-opt"]}
+    for (cname, (nm1, nm2)), (mname, fields), dt in itertools.product(chains.items(), chain_models.items(), DebugTrail):
+        if tier == "quick" and dt.name == "FIRST":
+            continue
+        if cname == "map-over-map" and mname != "req-opt":
+            continue
+        if cname == "skip-plus-style" and mname != "req-opt":
+            continue
+        c = Case(f"{mname}/chain:{cname}/{dt.name}/strict", fields, nm1, dt, True)
+        c.nm_later = nm2
+        cases.append(c)
     # **kwargs collecting needs a model with **kwargs
     for dt in DebugTrail:
         cases.append(Case(f"req-opt+kwargs/kwargs/{dt.name}/strict", models["req-opt"], {"extra_in": "kwargs"}, dt, True,
